@@ -13,7 +13,7 @@ chk("C05", "model_checking",
 chk("C12", "model_checking",
     "All interleavings of puts, Discard/Finalize interruptions and reopen variants up to the bound are taken from the TLC graph of Store.tla and replayed; the final "
     "file is compared byte-for-byte with the uninterrupted real session and with the specification; refused reopens must leave the bytes untouched.",
-    "Exhaustive within: 3 blocks (68-byte CID, empty-data, identity), interleavings <= 5 (6 thorough), 18 (26) option sets incl. a reader-side section limit below the stored sections, 4 root lists incl. duplicates, 8 reopen variants, both stores. " + TB,
+    "Exhaustive within: 3 blocks (68-byte CID, empty-data, identity), interleavings <= 5 (6 thorough), 18 (26) option sets incl. a reader-side section limit below the stored sections, plus a second configuration with a 16 KiB block followed by sections and a block that does not verify, 4 root lists incl. duplicates, 8 reopen variants, both stores. " + TB,
     "TLA+ spec (Reopen action) + TLC graph replay with byte comparison", "DESIGN.md §3 C12")
 chk("C14", "model_checking",
     "Reader.tla models the block reader's incremental offset bookkeeping; TLC checks it against the closed-form scan offsets for every bounded archive and every "
@@ -34,7 +34,7 @@ chk("C03", "model_checking",
 chk("C07", "model_checking",
     "ArchiveOps.tla defines read-only answers as functions of the sequential scan; every bounded archive x option set x front-end (NewReadOnly, OpenReadOnly, OpenReadable, supplied index) is queried "
     "for 13 probe CIDs and compared, including the AllKeysChan sequence and Roots.",
-    "Exhaustive within the same archive bounds as C03. " + TB,
+    "Exhaustive within the same archive bounds as C03; sources incl. ReaderAt-only values and readers that were read from before; write methods refused; limit refusal. " + TB,
     "TLA+ scan-derived answers vs the real read-only stores", "DESIGN.md §3 C07")
 chk("C13", "model_checking",
     "ArchiveOps!Stats is compared field by field with Reader.Inspect on every bounded archive; Inspect's success is compared with a verifying scan on valid archives, on every truncation/corruption "
@@ -48,7 +48,7 @@ chk("C01", "model_checking",
 chk("C11", "model_checking",
     "Index.tla defines the canonical serial form and the lookups as functions of the record multiset; TLC checks order independence over all permutations; every load order is replayed on both codecs "
     "(determinism over 8 serializations, canonical bucket/entry order, byte count, round trip, lookups, iteration); flattened vs regenerated indexes are compared on every finished file of the Store graphs.",
-    "Exhaustive within: load sequences <= 3 (4) over 11 records; read-back also through short-read sources. " + TB,
+    "Exhaustive within: load sequences <= 3 (4) over 11 records; read-back also through short-read sources, and every sequence loaded in two calls at every split point. " + TB,
     "TLA+ canonical-form spec + TLC load orders replayed on the index codecs", "DESIGN.md §3 C11")
 chk("C10", "model_checking",
     "Transform.tla models wrap / extract / replace-roots as actions on an abstract file; TLC checks payload invariance and extract(wrap(x)) = x over the complete bounded behaviour tree, and every "
@@ -58,7 +58,7 @@ chk("C10", "model_checking",
 chk("C20", "model_checking",
     "Deferred.tla models lazy creation, callback bookkeeping and the closed typestate; TLC checks Lazy/OnceFiresOnce on the complete bounded behaviour tree; every behaviour is replayed on the real "
     "DeferredCarWriter with result, callback log and output bytes compared after every step, and the final output compared with a direct writer.",
-    "Exhaustive within: histories of 5 (6) operations over 8 operations, 8 configurations (incl. a pre-existing longer file at the path, explicit CARv2 on a stream). " + TB,
+    "Exhaustive within: histories of 5 (6) operations over 8 operations, 9 configurations (incl. a pre-existing longer file at the path, explicit CARv2 on a plain stream (refused) and on a stream that is an io.WriterAt). " + TB,
     "TLA+ state machine + TLC behaviours replayed on the real deferred writer", "DESIGN.md §3 C20")
 chk("C06", "fault_enumeration",
     "Every crash point (operation boundary and byte within every write) of recorded real sessions is materialised, reopened with the real resumption code, continued and finalized; TLC validates each "
@@ -67,7 +67,7 @@ chk("C06", "fault_enumeration",
     "recorded crash-point observations validated by TLC against a TLA+ relation; write-log trace validation against a TLA+ protocol spec", "DESIGN.md §3 C06")
 chk("C16", "fault_enumeration",
     "A transient write fault is injected at every write of a session and every persisted-byte count, followed by every continuation; TLC validates each observation against FaultObs!FaultSafe.",
-    "Exhaustive over fault points of 8 (16) storage sessions incl. a plain stream target, and over kernel short writes (RLIMIT_FSIZE) at every file offset 0..699 of 8 blockstore sessions incl. PutMany batches; two-fault sessions for both. " + TB,
+    "Exhaustive over fault points of 8 (16) storage sessions incl. a plain stream target, and over kernel short writes (RLIMIT_FSIZE) at every file offset 0..699 of 8 blockstore sessions incl. PutMany batches; two-fault sessions for both; resumed sessions; the deferred writer for a path (lazy creation, failed Close). " + TB,
     "recorded fault-point observations validated by TLC against a TLA+ relation", "DESIGN.md §3 C16")
 chk("C08", "model_checking",
     "Conc.tla models the lock discipline (one action per critical-section boundary) and is model-checked for conflict freedom, linearizability, dedupe and termination; real executions are bound to it three ways: "
@@ -92,7 +92,7 @@ chk("C19", "exploration",
 chk("C15", "model_checking",
     "Traversal.tla is an explicit DFS machine (selector, visit-once, link budget) over all small DAGs; its predicted load sequence agrees with the real engine (drift check) and every case is run through all "
     "traversal writers of both modules, with the observed loads as oracle for content/order and all announced sizes, counts, callbacks and Dump/Write compared.",
-    "Exhaustive within: DAGs over 4 nodes, 8 selectors (all, depth 1..3, 4 field paths), visit-once on/off, 3 budgets; two (root, selector) pairs for the root module; one block under two codecs. " + TB,
+    "Exhaustive within: DAGs over 4 nodes, 8 selectors (all, depth 1..3, 4 field paths), visit-once on/off, 3 budgets; two (root, selector) pairs for the root module; one block under two codecs; identity-CID and empty leaves; one UnixFS file through the unixfs ADL (observed loads as oracle). " + TB,
     "TLA+ DFS model + TLC-enumerated DAGs replayed through the traversal writers", "DESIGN.md §3 C15")
 chk("C09", "exploration",
     "Parser.tla gives the scanner's termination/no-big-allocation argument (TLC, all token strings up to the bound) and the exact-limit matrix, which is run on every entry point; panics, hangs and allocation on "
